@@ -203,7 +203,8 @@ def float_lits():
     out, rc = vlib.tlc("MC_FloatScan.tla", "MC_FloatScan.cfg", workers=min(8, vlib.NCPU), xmx="8g")
     c = vlib.tlc_counts(out)
     if rc != 0 or c is None or "No error has been found" not in out:
-        raise Infra("scanner-model cover failed:\n" + out[-4000:])
+        tail = "\n".join(l for l in out.splitlines() if "FLOATLIT" not in l)[-3000:]
+        raise Infra("scanner-model cover failed (rc=%s):\n%s" % (rc, tail))
     lits = []
     for line in out.splitlines():
         if line.startswith('"['):
